@@ -62,8 +62,12 @@ var lgTable = []lgEntry{
 	{Rule: "LB", Func: "tensor.(StdEng).MatMul", Site: "whichblas.", Decides: []string{"%ad.oldAP().IsZero()", "%bd.oldAP().IsZero()", "$a.DataOrder().IsColMajor()", "$b.DataOrder().IsColMajor()", "$prealloc.DataOrder().IsColMajor()"}, Props: []string{"C09", "C16"}, Why: "each trans flag and leading dimension must come from that operand's own lazy-transpose state and data order"},
 	{Rule: "LB", Func: "tensor.(StdEng).MatVecMul", Site: "whichblas.", Decides: []string{"%ad.oldAP().IsZero()", "$a.DataOrder().IsColMajor()"}, Props: []string{"C09", "C16"}, Why: "the trans flag must come from the matrix' lazy-transpose state and data order"},
 	{Rule: "LB", Func: "tensor.(StdEng).Outer", Site: "whichblas.", Decides: []string{"%pd.DataOrder().IsColMajor()"}, Props: []string{"C09", "C16"}, Why: "the result's data order decides the operand order of the rank-1 update"},
-	{Rule: "L1", Func: "tensor.(StdEng).MatMul", Site: "whichblas.", Decides: []string{"%ad.RequiresIterator()", "%bd.RequiresIterator()"}, Props: []string{"C09"}, Why: "a sliced operand's window is not the matrix BLAS is told about"},
-	{Rule: "L1", Func: "tensor.(StdEng).MatVecMul", Site: "whichblas.", Decides: []string{"%ad.RequiresIterator()", "%bd.RequiresIterator()"}, Props: []string{"C09"}, Why: "a sliced operand's window is not the matrix BLAS is told about"},
+	{Rule: "L1", Func: "tensor.(StdEng).MatMul", Site: "whichblas.", MustStep: "$r.checkThreeFloatComplexTensors($a, $b, $prealloc)", Props: []string{"C09"}, Why: "every path to BLAS passes the shared operand check (which refuses views with gaps)"},
+	{Rule: "L1", Func: "tensor.(StdEng).MatVecMul", Site: "whichblas.", MustStep: "$r.checkThreeFloatComplexTensors($a, $b, $prealloc)", Props: []string{"C09"}, Why: "every path to BLAS passes the shared operand check"},
+	{Rule: "L1", Func: "tensor.(StdEng).Outer", Site: "whichblas.", MustStep: "$r.checkThreeFloatComplexTensors($a, $b, $prealloc)", Props: []string{"C09"}, Why: "every path to BLAS passes the shared operand check"},
+	{Rule: "L1", Func: "tensor.(StdEng).Inner", Site: "whichblas.", MustStep: "$r.checkTwoFloatComplexTensors($a, $b)", Props: []string{"C09"}, Why: "every path to BLAS passes the shared operand check"},
+	{Rule: "L1", Func: "tensor.(StdEng).checkThreeFloatComplexTensors", Site: "return ", NotAfter: "errors.", Goal: "(($ret0.DataOrder().IsContiguous() && $ret1.DataOrder().IsContiguous()) && $ret2.DataOrder().IsContiguous())", Props: []string{"C09"}, Why: "a view with gaps is not the matrix BLAS is told about: the check accepts only packed operands and result (a pending lazy transpose is expressed through the flags, rule LD)"},
+	{Rule: "L1", Func: "tensor.(StdEng).checkTwoFloatComplexTensors", Site: "return ", NotAfter: "errors.", Goal: "($ret0.DataOrder().IsContiguous() && $ret1.DataOrder().IsContiguous())", Props: []string{"C09"}, Why: "a view with gaps is not the vector BLAS is told about"},
 	// ---- transposition shortcuts (C03) and destination normalisation (C09, C07) ----------------------
 	{Rule: "L1", Func: "tensor.(*Dense).T", Site: "$r.UT()", Goal: "(!$r.old.IsZero() && ($r.IsVector() || %isReversed))", Props: []string{"C03"}, Why: "a second lazy transpose may be answered by an untranspose only for a true vector or when the requested pattern is the saved one"},
 	{Rule: "L1", Func: "tensor.reuseCheckShape", Site: "return nil", MustStep: "$reuse.reshape(", Decides: []string{"$reuse.oldAP().IsZero()", "($reuse.transposeAxes() == nil)", "($reuse.parentTensor() == nil)"}, Props: []string{"C09", "C07"}, Why: "a reuse destination is normalised (reshaped to default strides, pending transpose and view marker dropped) on every accepting path, whatever its current shape"},
